@@ -130,6 +130,9 @@ func c04ParseInputs(leaf *model.Node) []c04Input {
 		{"int0", model.Int(0), false}, {"float0", model.F64(0), false}, {"false", model.Bool(false), false},
 		{"zero-time", model.Time(time.Time{}), false}, {"string-0", model.Str("0"), false}, {"string-false", model.Str("false"), false},
 		{"empty-list", model.List(), false}, {"nil-strlist", model.Val{T: "strlist"}, false},
+		// strings that spell "nothing" in some notation are not blank: they are present values
+		{"zero-time-string", model.Str("0001-01-01T00:00:00Z"), false}, {"string-null", model.Str("null"), false}, {"string-nil", model.Str("<nil>"), false},
+		{"string-0.0", model.Str("0.0"), false}, {"string-minus-0", model.Str("-0"), false}, {"string-brackets", model.Str("[]"), false}, {"string-off", model.Str("off"), false},
 	}
 	// a valid non-zero value in the node's natural representation
 	switch leaf.Kind {
@@ -265,7 +268,7 @@ func propC04(cell c04Cell) hh.Verdict {
 
 func TestC04(t *testing.T) {
 	h := hh.Start(t, "C04",
-		"exhaustive decision table: node kind x modifier combination (required/default/catch/notnil) x input class (nil, missing key, empty, white-space forms incl. U+00A0 and U+3000, 0, 0.0, false, zero time, \"0\", \"false\", empty and nil slices, empty map, valid) x mode x placement (top, struct field, slice element, behind pointer, struct in slice, struct behind pointer); every enumerated cell is non-trivial and distinct by construction; random sub-checks: generated schemas with absence-heavy inputs; the same records through every front end (Go map, zjson, zhttp JSON / form / query incl. []-suffixed parameters, zenv) where a missing leaf is a missing key, parameter or variable",
+		"exhaustive decision table: node kind x modifier combination (required/default/catch/notnil) x input class (nil, missing key, empty, white-space forms incl. U+00A0 and U+3000, 0, 0.0, false, zero time, \"0\", \"false\", \"null\", \"<nil>\", \"0.0\", \"-0\", \"[]\", \"off\", the zero time as a string, empty and nil slices, empty map, valid) x mode x placement (top, struct field, slice element, behind pointer, struct in slice, struct behind pointer); every enumerated cell is non-trivial and distinct by construction; random sub-checks: generated schemas with absence-heavy inputs; the same records through every front end (Go map, zjson, zhttp JSON / form / query incl. []-suffixed parameters, zenv) where a missing leaf is a missing key, parameter or variable",
 		"observed per cell: required/not_nil issues, whole destination against sentinels (written or untouched), and how often each node's recorder test ran; expectation from the executable specification of the statement's table",
 		"cells whose coercion the documentation does not determine (e.g. float64 0 into Bool) are skipped and counted")
 	defer h.Finish()
